@@ -45,8 +45,45 @@ class Run:
         self.release = False
 
 
-def build(release=False):
-    return core.cargo_build(template="probe/threads", bins=["thrprobe"], release=release)
+BASE_FLAGS = "-C panic=abort -C link-arg=-nostartfiles --cfg tiny_std_verif --check-cfg cfg(tiny_std_verif)"
+LINK_MODES = {
+    # the three ways the repository's own runners link (test-runners, .local/x86_64-test-runners.sh)
+    "dyn": "",                                                                  # dynamic PIE (default)
+    "static": " -C target-feature=+crt-static -C relocation-model=static",      # static, non-PIE
+    "static-pie": " -C target-feature=+crt-static -C relocation-model=pie",     # static PIE
+}
+
+
+def build(release=False, mode="dyn"):
+    if mode == "dyn":
+        return core.cargo_build(template="probe/threads", bins=["thrprobe"], release=release)
+    # same steps as core.cargo_build (instantiate the template, flock, offline build), with the link
+    # mode's RUSTFLAGS and its own target directory so the modes do not evict each other's caches
+    import fcntl
+    tdir = "target-" + mode
+    inst = os.path.join(core.WORK, "probe_threads-%s" % core.repo_tag())
+    os.makedirs(core.WORK, exist_ok=True)
+    lock = open(os.path.join(core.WORK, ".cargo-%s.lock" % core.repo_tag()), "w")
+    fcntl.flock(lock, fcntl.LOCK_EX)
+    try:
+        core._instantiate(os.path.join(core.VERIF, "probe/threads"), inst)
+        e = dict(os.environ)
+        e["CARGO_NET_OFFLINE"] = "true"
+        e["RUSTFLAGS"] = BASE_FLAGS + LINK_MODES[mode]
+        e["CARGO_TARGET_DIR"] = tdir
+        cmd = ["cargo", "build", "--offline", "--bin", "thrprobe"] + (["--release"] if release else [])
+        t0 = time.time()
+        p = subprocess.run(cmd, cwd=inst, env=e, stdout=subprocess.PIPE, stderr=subprocess.STDOUT, text=True, timeout=1800)
+        if p.returncode != 0:
+            raise core.ToolError("cargo build (%s) failed:\n%s" % (mode, "\n".join(p.stdout.splitlines()[-40:])))
+        core.log("cargo build probe/threads (%s, %s) %.1fs" % (mode, "release" if release else "debug", time.time() - t0))
+    finally:
+        fcntl.flock(lock, fcntl.LOCK_UN)
+        lock.close()
+    d = os.path.join(inst, tdir, "x86_64-unknown-linux-gnu", "release" if release else "debug")
+    if not os.path.exists(os.path.join(d, "thrprobe")):
+        raise core.ToolError("no thrprobe binary in " + d)
+    return d
 
 
 STRACE_SYSCALLS = "mmap,munmap,clone,clone3,set_tid_address,exit,exit_group"
@@ -250,6 +287,8 @@ class Thread:
         self.kept = False
         self.stack_known = False
         self.h_unmaps = []
+        self.arr_h = []       # (model pc, seq) arrivals of the handle owner that concern this thread
+        self.arr_t = []       # arrivals of the thread itself
 
 
 def normalise(run):
@@ -266,6 +305,7 @@ def normalise(run):
     tid_owner = {}
     cur_spawn = None
     h_cur = None
+    pending9 = {}
     batches = []
     info = {"main": main_tid, "h": h_tid, "diverged": False, "steps": [], "stray": 0, "abort": False,
             "timeout": None, "unattributed_badfree": 0, "debug": hello.get("debug")}
@@ -290,9 +330,11 @@ def normalise(run):
             cur_spawn = t
             batch_threads += 1
             t.raw.append(e)
+            t.arr_h.append(("60", e["seq"]))
         elif ev == "spawn_ret":
             t = threads.get(e["k"])
             if t:
+                t.arr_h.append(("60", e["seq"]))
                 t.spawn_ok = e["ok"]
                 emit(t, {"e": "spawn", "ok": e["ok"]}, e)
                 for (p, sz) in t.pending:
@@ -340,6 +382,8 @@ def normalise(run):
             if tid == h_tid and cur_spawn is not None and pid_ in (1, 2, 3, 4, 5, 6):
                 t = cur_spawn
                 t.raw.append(e)
+                if pid_ != 5:
+                    t.arr_h.append((str(pid_), e["seq"]))
                 role = {1: "tsm", 2: "closure", 3: "stack", 4: "tls"}.get(pid_)
                 if role:
                     t.addr[role] = e["arg"]
@@ -352,21 +396,31 @@ def normalise(run):
                     emit(t, {"e": "acq", "r": role})
             elif tid == h_tid and h_cur is not None:
                 t = threads[h_cur]
+                if pid_ == 50:
+                    t.arr_h.append(("50a" if e.get("ord") in ("Acquire", "SeqCst", "AcqRel") else "50r", e["seq"]))
+                elif pid_ in (31, 32, 40, 43):
+                    t.arr_h.append((str(pid_), e["seq"]))
                 if pid_ in H_TOUCH:
                     emit(t, {"e": "touch", "by": "H", "what": H_TOUCH[pid_], "word": e.get("word", 0)}, e)
                 else:
                     t.raw.append(e)
             elif tid in tid_owner:
                 t = threads[tid_owner[tid]]
+                if pid_ in (10, 11, 13, 14, 15, 16, 20, 21, 23, 24, 25):
+                    t.arr_t.append((str(pid_), e["seq"]))
                 if pid_ in T_TOUCH:
                     emit(t, {"e": "touch", "by": "T", "what": T_TOUCH[pid_], "word": 0}, e)
                 else:
                     t.raw.append(e)
+            if pid_ == 9:
+                pending9[tid] = e["seq"]
         elif ev == "run":
             t = threads.get(e["k"])
             if t:
                 t.tid = tid
                 tid_owner[tid] = t.k
+                if tid in pending9:
+                    t.arr_t.append(("9", pending9.pop(tid)))
                 emit(t, {"e": "run"}, e)
         elif ev in ("cend", "cpanic"):
             t = threads.get(e["k"])
@@ -383,11 +437,13 @@ def normalise(run):
         elif ev == "join_ret":
             t = threads.get(e["k"])
             if t:
+                t.arr_h.append(("done", e["seq"]))
                 emit(t, {"e": "ret", "op": "join", "res": e["res"], "val_ok": e["val_ok"], "eff_ok": e["eff_ok"], "hb": True}, e)
             h_cur = None
         elif ev == "drop_ret":
             t = threads.get(e["k"])
             if t:
+                t.arr_h.append(("done", e["seq"]))
                 emit(t, {"e": "ret", "op": "drop", "res": "-", "val_ok": True, "eff_ok": True, "hb": False}, e)
             h_cur = None
         elif ev == "vdrop":
@@ -401,6 +457,7 @@ def normalise(run):
                 emit(t, {"e": "xload", "val": e["val"], "acq": e["ord"] in ("Acquire", "SeqCst", "AcqRel")}, e)
         elif ev == "xwait":
             if h_cur is not None and tid == h_tid:
+                threads[h_cur].arr_h.append(("51", e["seq"]))
                 emit(threads[h_cur], {"e": "touch", "by": "H", "what": "wait", "word": 0}, e)
         elif ev == "stray_wake":
             info["stray"] += 1 if e.get("woken", 0) > 0 else 0
